@@ -91,10 +91,30 @@ def write_project(path, db):
         con.close()
 
 
+_RUNS = 0
+_SAME = []
+
+
+def _same_dir():
+    if not _SAME:
+        import atexit
+        import shutil
+        import tempfile
+        _SAME.append(tempfile.mkdtemp(prefix="kjv-vppsame-"))
+        atexit.register(shutil.rmtree, _SAME[0], True)
+    return _SAME[0]
+
+
 def run_real(db, name):
     """(rows as lists of bytes | None, exception text) from vppfs.ExtractTransitionTable on a fresh project file"""
+    global _RUNS
+    _RUNS += 1
     with kj.scratch("kjv-vpp-") as d:
-        path = os.path.join(d, "project.vpp")
+        # every second project of a process is written to ONE path (the previous file there is replaced): the table that comes back
+        # must be that of the file's current content, whatever was extracted from that path before (C20: "no other content of the project")
+        path = os.path.join(_same_dir(), "project.vpp") if _RUNS % 2 == 0 else os.path.join(d, "project.vpp")
+        if os.path.exists(path):
+            os.remove(path)
         write_project(path, db)
         try:
             with kj.quiet():
